@@ -3,7 +3,9 @@ package wasp
 import (
 	"time"
 
+	"github.com/vx-labs/mqtt-protocol/packet"
 	"github.com/vx-labs/wasp/v4/wasp/distributed"
+	"github.com/vx-labs/wasp/v4/wasp/sessions"
 )
 
 type NodeMemberManager interface {
@@ -28,11 +30,15 @@ func NewNodeMemberManager(id uint64, log messageLog, state distributed.State) No
 func (n *nodeMemberManager) NotifyGossipJoin(id uint64) {}
 func (n *nodeMemberManager) NotifyGossipLeave(id uint64) {
 	n.state.Subscriptions().DeletePeer(id)
-	sessions := n.state.SessionMetadatas().ByPeer(id)
-	for _, session := range sessions {
+	lost := n.state.SessionMetadatas().ByPeer(id)
+	for _, session := range lost {
 		lwt := session.LWT
 		if lwt != nil {
-			n.log.Append(lwt)
+			n.log.Append(&packet.Publish{
+				Header:  lwt.Header,
+				Topic:   sessions.PrefixMountPoint(session.MountPoint, lwt.Topic),
+				Payload: lwt.Payload,
+			})
 		}
 	}
 	go func() {
